@@ -230,10 +230,34 @@ def c05_5(ctx):
     _refcheck(ctx, SOLVER, "DynamicStack._fill", "ds_fill", "placeholder-naming")
 
 
+# ------------------------------------------------------------------ C05.6
+def c05_6(ctx):
+    """signatures already in the unlocking data are found again: every blob that can be a signature (9 bytes -- the shortest
+    DER signature plus the hash-type byte -- and more) is handed to the signature parser; no shortcut on its length"""
+    f = ctx.func(SOME, "_find_signatures")
+    w0 = sym.walk(ctx, f)
+    from rules.C20 import _loops_over
+    blobs = f.params()[0]
+    loops = _loops_over(w0, f, blobs)
+    if len(loops) != 1 or not isinstance(loops[0].target, ast.Name):
+        raise Undecided("_find_signatures: expected one loop `for <blob> in %s`" % blobs)
+    subj = "len(%s)" % loops[0].target.id
+    w = sym.int_walk(ctx, f, {subj})
+    parses = [e for e in w.effects if e.kind == "call" and norm(e.raw.func).endswith("parse_signature_blob")]
+    if not parses:
+        raise Undecided("_find_signatures does not call parse_signature_blob itself")
+    for e in parses:
+        st = sym.may_set(e.reach, gi.IntSet.all(), gi.IntSet.empty())
+        ctx.check(gi.iv(9, 73).issubset(st), "every-candidate-parsed", ctx.where(f, e.node),
+                  "_find_signatures parses a blob only when its length is in %s: DER signatures with short r or s (leading zero bytes) are shorter than 70 bytes and an existing signature of that kind is dropped when the next key signs"
+                  % st.fmt(), sample={"subject": subj, "parsed_for": st.fmt()})
+
+
 OBLIGATIONS = [
     Ob("C05.1", "effect set of signing = {script, witness} of requested inputs that failed validation", c05_1, floor=8, engines="EF,SYM", breaks_if="sign(..., tx_in_idx_set=set()); re-signing valid inputs"),
     Ob("C05.2", "low-S normalisation (with the group order) dominates every DER emission; hash-type byte", c05_2, floor=2, engines="SYM", breaks_if="half of all signatures"),
     Ob("C05.3", "fork-id solvers default to ALL and only OR in SIGHASH_FORKID", c05_3, floor=6, engines="SYM", breaks_if="BCH with ANYONECANPAY hash types"),
     Ob("C05.4", "lookup tables: both compression forms, both script hashes, single pass over one-shot iterables", c05_4, floor=8, engines="DF,SYM", breaks_if="scripts supplied as a generator + P2WSH input"),
+    Ob("C05.6", "existing signatures: every blob of signature size reaches the parser (no length shortcut)", c05_6, floor=1, engines="SYM,GI", breaks_if="2-of-3 multisig whose first signature is 69 bytes long"),
     Ob("C05.5", "solution stacks are ordered numerically", c05_5, floor=4, engines="DF,SYM", breaks_if="15-of-15 multisig"),
 ]
